@@ -168,6 +168,13 @@ def deviation(c):
     if op == "clean" and c["dir"] and any(pg.ignored(st, d + "/\x01") for d in st["dirs"]):
         return "clean-removes-ignored-empty-dir"
     if op == "clean" and c["dir"]:
+        for e in st["dirs"]:                      # an empty directory below a directory whose tracked files are all deleted
+            comps = e.split("/")
+            for k in range(1, len(comps)):
+                d = "/".join(comps[:k])
+                rest = [x for x in wt if under(d, x) and (x in idx or pg.ignored(st, x))]
+                if not rest and any(under(d, x) for x in idx):
+                    return "clean-rmdir-tracked"
         for q in wt:
             if q not in idx and not pg.ignored(st, q) and "/" in q:
                 comps = q.split("/")
@@ -239,6 +246,12 @@ class Main(Suite):
                 c["op"], c["dir"] = "clean", kind == "cleand"
             else:
                 c["op"] = "commit"
+            # the model has no empty directories: a path argument must not exist only through them
+            for arg in (c.get("path"), c.get("to")):
+                if arg:
+                    top = arg.split("/")[0]
+                    if not any(q == top or q.startswith(top + "/") for q in wt):
+                        c["dirs"] = [e for e in c["dirs"] if e.split("/")[0] != top]
             c["bucket"] = kind
             cases.append(c)
         return cases
